@@ -17,7 +17,7 @@ CONSTANT Big
 VARIABLES stage, part, u, src, alias
 vars == <<stage, part, u, src, alias>>
 
-Schemes == {"https", "http", "ws", "wss", "ftp", "HTTPS", "Ws"}
+Schemes == {"https", "http", "ws", "wss", "ftp", "HTTPS", "Ws", "gopher"}
 UserInfos == IF Big THEN {"", "u", "u:p", "a.com", "u:p@x"} ELSE {"", "u:p", "a.com"}
 HostsU == {"a.com", "s.a.com", "t.s.a.com", "b.com", "a.co.uk", "s.a.co.uk", "b.co.uk", "xa.com", "localhost",
            "1.2.3.4", "5.2.3.4", "a-b.com", "a.b.a.com", "A.com", "S.a.COM", "bücher.a.com", "пример.рф",
